@@ -83,11 +83,37 @@ def extracted_port(repo):
     return tr.gen_module("onl/netdev/port.py: Port.put", "port_st", "g_", PORT_STATE, "port_fx", PORT_EFFECTS, [spec])
 
 
+RED_STATE = PORT_STATE + [("average_queue_size", "Q")]
+RED_EFFECTS = [("FxStamp", "(k : option Z) (t : Q)"),         # packet.perhop_time[k] = t
+               ("FxDraw", ""),                               # rand = random.uniform(0, 1)   (the value is the parameter u)
+               ("FxStorePut", "")]                           # self.store.put(packet)
+RED_READS = [("self.element_id", "element_id", "optZ"),
+             ("self.limit_bytes", "limit_bytes", "bool"),
+             ("self.debug", "debug", "bool"),
+             ("self.env.now", "now", "Q"),
+             ("packet.size", "size", "Z"),
+             ("self.store.items", "n_items", "len", "volatile"),
+             ("self.weight_factor", "weight_factor", "Z"),
+             ("self.qlimit", "qlimit", "Q"),                 # REDPort(qlimit=None) is outside the statement (assumptions)
+             ("self.max_threshold", "max_threshold", "Q"),
+             ("self.min_threshold", "min_threshold", "Q"),
+             ("self.max_probability", "max_probability", "Q")]
+RED_DRAWS = [("random.uniform(0, 1)", "u", "Q", "FxDraw")]
+
+
+def extracted_red(repo):
+    import os
+    from vlib import translate as tr
+    spec = tr.FnSpec(os.path.join(repo, "onl", "netdev", "red_port.py"), "REDPort", "put", "gen_REDPort_put",
+                     reads=RED_READS, effects=PORT_FX, draws=RED_DRAWS)
+    return tr.gen_module("onl/netdev/red_port.py: REDPort.put", "red_st", "r_", RED_STATE, "red_fx", RED_EFFECTS, [spec])
+
+
 class PortPart:
     name = "port"
     kinds = ["port", "redport", "portmon"]
     serves = ["C09", "C08"]
-    props_files = {"C09": ["Props/C09.v", "Props/C09_Bridge.v"], "C08": ["Props/C08_Port.v"]}
+    props_files = {"C09": ["Props/C09.v", "Props/C09_Bridge.v", "Props/C09_BridgeRed.v"], "C08": ["Props/C08_Port.v"]}
     coq_imports = ["From ONL Require Import Base.Cmp Elem.Packet Elem.StoreQ Elem.Port Elem.Red."]
     weight = 1
     nontrivial_rule = {
@@ -107,8 +133,8 @@ class PortPart:
                 "what put() wrote into packet.perhop_time and what PortMonitor appended to sizes/sizes_byte are read from the "
                 "objects after each action",
                 "vlib/translate.py (Python ast, fail closed; observation/effect tables in props/part_port.py) regenerates "
-                "coq/Gen/Extracted_port.v from the put() bodies of the tree under test before every build; the C09_gen_* theorems "
-                "(Props/C09_Bridge.v) bridge them to the hand-written model; print() calls are ignored"],
+                "coq/Gen/Extracted_port.v and Extracted_red.v from the put() bodies of the tree under test before every build; the C09_gen_* theorems "
+                "(Props/C09_Bridge.v, C09_BridgeRed.v) bridge them to the hand-written model; print() calls are ignored"],
         "C08": ["packet identity = Python object identity recorded by the downstream tap"],
     }
     assumptions = {
@@ -130,6 +156,7 @@ class PortPart:
         from vlib import framework as fw
         from vlib import translate as tr
         tr.write_if_changed(os.path.join(fw.COQ, "Gen", "Extracted_port.v"), extracted_port(fw.REPO))
+        tr.write_if_changed(os.path.join(fw.COQ, "Gen", "Extracted_red.v"), extracted_red(fw.REPO))
 
     # ---- generation -----------------------------------------------------------------------------
     SIZES = {0: (10, 64, 100, 512, 1500), 8: (1, 2, 3, 4), 64: (2, 4, 8, 12, 16, 24),
